@@ -239,6 +239,10 @@ func (a Complex) M__ipow__(other, modulus Object) (Object, error) {
 	return a.M__pow__(other, modulus)
 }
 
+func (a Complex) M__bool__() (Object, error) {
+	return NewBool(a != 0), nil
+}
+
 func (a Complex) M__int__() (Object, error) {
 	if r, ok := convertToInt(a); ok {
 		return r, nil
@@ -332,3 +336,4 @@ func init() {
 // Check interface is satisfied
 var _ floatArithmetic = Complex(complex(0, 0))
 var _ richComparison = Complex(0)
+var _ I__bool__ = Complex(0)
